@@ -33,6 +33,10 @@ SPECS = [
     (['S', 'I', 'R'], [['I', 'R', 1.0, None], ['R', 'S', 0.5, None]], [['I', 'S', 'I', 2.0, None]]),
     (['S', 'E', 'I', 'R'], [['E', 'I', 0.6, None], ['I', 'R', 0.4, None]], [['I', 'S', 'E', 1.0, None]]),
     (['S', 'I', 'J', 'R'], [['I', 'R', 1.0, None], ['J', 'R', 0.8, None]], [['I', 'S', 'I', 1.0, None], ['J', 'S', 'J', 1.5, None]]),
+    # Maki-Thompson rumour model: the inducing status equals the induced-from status in ('I','I')->('I','R')
+    (['S', 'I', 'R'], [], [['I', 'S', 'I', 1.0, None], ['I', 'I', 'R', 1.0, None], ['R', 'I', 'R', 0.5, None]]),
+    # rate_function on both kinds of transition (SIS with vaccination-like heterogeneity)
+    (['S', 'I'], [['I', 'S', 1.0, 'fn']], [['I', 'S', 'I', 2.0, 'fn']]),
 ]
 CMODELS = [
     (['I', 'A'], {'I': ['threshold', 1.0, 'A', 2, 1]}, {'I': 'A', 'A': 'I'}),
@@ -146,16 +150,22 @@ def build_spec_graphs(case, G):
     ewl = list(case['gc']['ew'])[0] if case['gc'].get('ew') else None
     H = nx.DiGraph()
     H.add_nodes_from(statuses)
+    nodes = [oracles.tolabel(u) for u in case['gc']['nodes']]
+    pos = {u: i for i, u in enumerate(nodes)}
     for a, b, r, mode in spont:
         attrs = {'rate': r}
         if mode == 'label' and nwl:
             attrs['weight_label'] = nwl
+        elif mode == 'fn':
+            attrs['rate_function'] = (lambda G_, node: 0.5 + (pos[node] % 3))
         H.add_edge(a, b, **attrs)
     J = nx.DiGraph()
     for a, b, c, r, mode in induced:
         attrs = {'rate': r}
         if mode == 'label' and ewl:
             attrs['weight_label'] = ewl
+        elif mode == 'fn':
+            attrs['rate_function'] = (lambda G_, source, target: 0.25 + ((pos[source] + 2 * pos[target]) % 4) / 2.0)
         J.add_edge((a, b), (a, c), **attrs)
     return H, J
 
